@@ -452,9 +452,10 @@ def train_windows(tier):
     al = obs_alphabet(tier)
     idx = range(len(al))
     wins = [w for n in (2, 3) for w in itertools.product(idx, repeat=n)]
-    # length 4: the fingerprint is built from exact means / a vocabulary set / an error count, all independent
-    # of the order inside the window, so one order per multiset (orders are enumerated in full for lengths 2, 3)
-    wins += list(itertools.combinations_with_replacement(idx, 4))
+    if tier == "thorough":
+        # length 4: the fingerprint is built from exact means / a vocabulary set / an error count, all independent
+        # of the order inside the window, so one order per multiset (orders are enumerated in full for lengths 2, 3)
+        wins += list(itertools.combinations_with_replacement(idx, 4))
     return wins
 
 
@@ -533,6 +534,8 @@ ROOTS = {
     "anergic": TRAINED + [("obs", "slow")] + ALARM * 5,
     "stable": TRAINED + [("inspect",)] * 3,
     "remembered": TRAINED + [("obs", "slow"), ("flag",), ("inspect",), ("reset",)],
+    # a threat is remembered under the trained hashes, then the watcher is desensitised by alarms under other hashes
+    "remembered-anergic": TRAINED + [("obs", "slow"), ("flag",), ("inspect",), ("reset",), ("obs", "vocab"), ("obs", "vocab")] + ALARM * 5,
 }
 
 
@@ -756,7 +759,7 @@ def run(ctx):
         rule="D-tcell: every fingerprint on the product of per-bound positions of each profile x anergy x streak x flag "
         "(all distinct by construction; non-trivial = a baseline violation or a second signal is present in the reference); "
         "D-treg: every level x action x rule set x record (non-trivial = the action was modified); D-train: every "
-        "observation window (ordered for length 2-3, multisets for length 4) x canary history (non-trivial = distinct "
+        "observation window (ordered for length 2-3; thorough adds multisets of length 4) x canary history (non-trivial = distinct "
         "(window multiset, canaries) that trained POSITIVE); A: BFS over ImmuneSystem histories, distinct = canonical state",
         exhaustive=not a["capped"],
         depth_completed=a["depth_completed"],
